@@ -222,8 +222,12 @@ package handler
 // the allowed feature names after its own surrounding white space was removed ("x, accountId" asks for the account id)
 //@ event FeatureElementTrimmed = call strings.TrimSpace
 //@ event FeatureListSplit = ret strings.Split
+// ... and a list field may be sent as several header lines (RFC 9110 5.3: the same list as the comma-joined line; Go's client sends one
+// line per Header.Add): every line is read, not only the first
+//@ event FeatureHeaderAllLinesRead = call net/http.(Header).Values when a1 == featuresHeader
 //@ func parseRegistrationFeatures
 //@   requires request != nil
+//@   ensures [C13: every-line-of-the-feature-header-is-read] delta(FeatureHeaderAllLinesRead) == 1
 //@   ensures [C13: every-element-of-the-list-is-trimmed-on-its-own] delta(FeatureListSplit) == 1 && delta(FeatureElementTrimmed) == len(lastret(FeatureListSplit))
 //@   loop range rawFeatures: invariant [one-trim-per-element] delta(FeatureListSplit) == 1 && 0 <= rangeindex + 1 && rangeindex + 1 <= len(lastret(FeatureListSplit)) && delta(FeatureElementTrimmed) == rangeindex + 1 && (rangeindex >= 0 ==> lastarg(FeatureElementTrimmed, 0) == lastret(FeatureListSplit)[rangeindex])
 
